@@ -850,7 +850,7 @@ impl Value {
                 rev.reverse();
                 Ok(Self::from(rev))
             }
-            ValueInner::Bytes(v) => Ok(Self::from(v.iter().rev().copied().collect::<Vec<_>>())),
+            ValueInner::Bytes(v) => Ok(Self::bytes(v.iter().rev().copied().collect::<Vec<_>>())),
             ValueInner::String(v) => {
                 #[cfg(feature = "unicode")]
                 let reversed: String = v.as_str().graphemes(true).rev().collect();
